@@ -954,4 +954,54 @@ theorem nonvacuous_walk_generated :
       = .ok (some (.leaf ⟨"int", "3"⟩)) := by
   decide +kernel
 
+/-- merger.mergeOverlay — what `Merged()` runs: the fold of the translated `mergeContainers` over the layers in `names`
+    order.  Over the Go state (`names`, `overlays`) of an overlay document with distinct layer names and well-formed
+    layers it is the model's `merged`, for every list strategy `f` that meets its contract on lists of size ≤ M -/
+theorem mergeOverlay_generated_eq_model (o : ListStrategy) (f : List Node → List Node → Go.Res (List Node)) (M : Nat)
+    (hf : FuncsDomMerge.ListFnOk o f M) (s : Overlay) (ov : GoDom.ContMap) (hr : Rep s ov)
+    (hnd : (Overlay.layerNames s).Nodup) (hw : ∀ p ∈ s, (Node.cont p.2).WF ∧ Node.sizeKvs p.2 ≤ M) :
+    FuncsDom.mergeOverlay f (some ⟨Overlay.layerNames s, ov⟩) = .ok (Overlay.merged o s) :=
+  FuncsDomOverlay.mergeOverlay_generated_eq_model o f M hf s ov hr hnd hw
+
+/-- `Merged(ListsMergeAppend())`: the list strategy is the translated `mergeListsAppend`; no size bound is left -/
+theorem merged_append_generated_eq_model (s : Overlay) (ov : GoDom.ContMap) (hr : Rep s ov)
+    (hnd : (Overlay.layerNames s).Nodup) (hw : ∀ p ∈ s, (Node.cont p.2).WF) :
+    FuncsDom.mergeOverlay FuncsDom.mergeListsAppend (some ⟨Overlay.layerNames s, ov⟩) = .ok (Overlay.merged .append s) := by
+  obtain ⟨M, hM⟩ : ∃ M, ∀ p ∈ s, Node.sizeKvs p.2 ≤ M := by
+    clear hr hnd hw
+    induction s with
+    | nil => exact ⟨0, by intro p hp; cases hp⟩
+    | cons q rest ih =>
+      obtain ⟨M, hM⟩ := ih
+      refine ⟨max M (Node.sizeKvs q.2), ?_⟩
+      intro p hp
+      rcases List.mem_cons.mp hp with rfl | hp
+      · exact Nat.le_max_right ..
+      · exact Nat.le_trans (hM p hp) (Nat.le_max_left ..)
+  exact FuncsDomOverlay.mergeOverlay_generated_eq_model .append _ M (FuncsDomMerge.listFnOk_append M) s ov hr hnd
+    (fun p hp => ⟨hw p hp, hM p hp⟩)
+
+/-- the default `Merged()`: the list strategy is the same merger's translated `mergeListsMeld` (`meldKnot`, unrolled
+    as often as the layers are deep) -/
+theorem merged_meld_generated_eq_model (M : Nat) (s : Overlay) (ov : GoDom.ContMap) (hr : Rep s ov)
+    (hnd : (Overlay.layerNames s).Nodup) (hw : ∀ p ∈ s, (Node.cont p.2).WF ∧ Node.sizeKvs p.2 ≤ M) :
+    FuncsDom.mergeOverlay (FuncsDomMerge.meldKnot M) (some ⟨Overlay.layerNames s, ov⟩) = .ok (Overlay.merged .meld s) :=
+  FuncsDomOverlay.mergeOverlay_generated_eq_model .meld _ M (FuncsDomMerge.listFnOk_meld M) s ov hr hnd hw
+
+/-- merger.mergeLists is the call of the strategy field -/
+theorem mergeLists_generated_eq_model (f : List Node → List Node → Go.Res (List Node)) (a b : List Node) :
+    FuncsDom.mergeLists f a b = f a b := by
+  unfold FuncsDom.mergeLists
+  cases f a b <;> rfl
+
+/-- the translated `mergeOverlay` RUN on two layers (created in the order top, base): later layers win, lists append -/
+theorem nonvacuous_mergeOverlay_generated :
+    FuncsDom.mergeOverlay FuncsDom.mergeListsAppend
+        (some ⟨["top", "base"], [("base", [("a", .leaf ⟨"int", "1"⟩), ("l", .list [.leaf ⟨"int", "9"⟩])]),
+                                  ("top", [("a", .leaf ⟨"int", "2"⟩), ("b", .leaf ⟨"int", "3"⟩), ("l", .list [.leaf ⟨"int", "8"⟩])])]⟩)
+      = .ok [("a", .leaf ⟨"int", "1"⟩), ("b", .leaf ⟨"int", "3"⟩), ("l", .list [.leaf ⟨"int", "8"⟩, .leaf ⟨"int", "9"⟩])] ∧
+    FuncsDom.mergeOverlay FuncsDom.mergeListsAppend (some ⟨["ghost"], []⟩) = .panic ∧
+    FuncsDom.mergeOverlay FuncsDom.mergeListsAppend none = .panic := by
+  decide +kernel
+
 end Ytk.C06
